@@ -251,7 +251,10 @@ def run(ctx):
     # End(DONE) without its `every target node reported` guard.
     if True:
         ok, nobl, nfail, tail = vlib.tlapm("ResizeAbsProof", ctx.scratch, timeout=900)
-        if ok is not True:
+        if ok is None and not thorough:
+            # the proof is supplementary: a prover that cannot be run does not stop the quick tier
+            ctx.notes.append("TLAPS gave no verdict on ResizeAbsProof (not run / timed out): %s" % tail[-300:])
+        elif ok is not True:
             ctx.inconclusive.append("TLAPS did not prove ResizeAbsProof (%s): %s" % (
                 "failed obligations" if ok is False else "no verdict", tail[-600:]))
         else:
